@@ -619,22 +619,45 @@ class SSeq:
             return False
         return conj(el_eq(a, b) for a, b in zip(self.el[i:], sub))
 
-    def startswith(self, p, start=0):
-        if isinstance(p, tuple):
-            return mkb(disj(self.at(self._lift(x), start) for x in p))
-        return mkb(self.at(self._lift(p), start))
+    def _window(self, start, end):
+        """slice.indices-like normalisation of optional (start, end) arguments; None if start > len (the
+        str/bytes methods then report 'no match' even for an empty needle)"""
+        n = len(self.el)
+        start = 0 if start is None else int(start)
+        end = n if end is None else int(end)
+        if start < 0:
+            start = max(0, n + start)
+        if end < 0:
+            end = max(0, n + end)
+        end = min(end, n)
+        if start > n:
+            return None
+        return start, end
 
-    def endswith(self, p):
+    def _affix(self, p, start, end, suffix):
+        w = self._window(start, end)
+
+        def one(x):
+            sub = self._lift(x)
+            if w is None or w[1] - w[0] < len(sub):
+                return False
+            return self.at(sub, (w[1] - len(sub)) if suffix else w[0])
         if isinstance(p, tuple):
-            return mkb(disj(self.at(self._lift(x), len(self.el) - len(self._lift(x))) for x in p))
-        sub = self._lift(p)
-        return mkb(self.at(sub, len(self.el) - len(sub)))
+            return mkb(disj(one(x) for x in p))
+        return mkb(one(p))
+
+    def startswith(self, p, start=0, end=None):
+        return self._affix(p, start, end, False)
+
+    def endswith(self, p, start=0, end=None):
+        return self._affix(p, start, end, True)
 
     def find(self, sub, start=0, end=None):
         sub = self._lift(sub)
-        n = len(self.el) if end is None else min(end, len(self.el))
-        if start < 0:
-            start = max(0, len(self.el) + start)
+        w = self._window(start, end)
+        if w is None:
+            return -1
+        start, n = w
         m = len(sub)
         if self.kind is bytes and n - start > 48 and m and all(isinstance(x, int) for x in sub):
             # long, mostly concrete data: jump over concrete stretches with bytes.find, decide with the
@@ -665,15 +688,24 @@ class SSeq:
                 return i
         return -1
 
-    def rfind(self, sub):
+    def rfind(self, sub, start=0, end=None):
         sub = self._lift(sub)
-        for i in range(len(self.el) - len(sub), -1, -1):
+        w = self._window(start, end)
+        if w is None:
+            return -1
+        for i in range(w[1] - len(sub), w[0] - 1, -1):
             if _br(self.at(sub, i)):
                 return i
         return -1
 
-    def index(self, sub, start=0):
-        i = self.find(sub, start)
+    def index(self, sub, start=0, end=None):
+        i = self.find(sub, start, end)
+        if i < 0:
+            raise ValueError('subsection not found')
+        return i
+
+    def rindex(self, sub, start=0, end=None):
+        i = self.rfind(sub, start, end)
         if i < 0:
             raise ValueError('subsection not found')
         return i
@@ -684,8 +716,26 @@ class SSeq:
             return _br(disj(el_eq(e, v) for e in self.el))
         return self.find(sub) >= 0
 
-    def count(self, sub):
-        return len(self.split(sub)) - 1
+    def count(self, sub, start=0, end=None):
+        w = self._window(start, end)
+        if w is None:
+            return 0
+        sub_el = self._lift(sub)
+        if not sub_el:
+            return w[1] - w[0] + 1
+        return len(lift(mk_seq(self.el[w[0]:w[1]], self.kind)).split(sub)) - 1
+
+    def format(self, *a, **k):
+        from .instrument import h_format
+        return h_format(self, a, k)
+
+    def __reversed__(self):
+        return iter(list(self)[::-1])
+
+    def title(self):
+        raise Unmodelled('title() of symbolic text')
+
+    capitalize = swapcase = casefold = expandtabs = translate = zfill = center = ljust = rjust = title
 
     def split(self, sep=None, maxsplit=-1):
         if sep is None:
